@@ -27,6 +27,7 @@ RULE = (
     "checks with class and rule); the nine runs agree on the per-row verdict (accept / error class / column) and "
     "on the returned values, and agree with vlib/model_validio. Non-trivial: a case with a Decimal or DateTime "
     "field or >= 1 rejected row; distinct by hash of (CID rows, table)."
+    "CIDs may restrict the allowed characters; Text cells may span lines; check descriptions may have blanks at their edges."
 )
 ASSUMPTIONS = [
     "rows have exactly one cell per field and a non-empty last cell (xlsx pads, ODS/XLSX cannot store trailing "
